@@ -303,8 +303,8 @@ def run(ck):
         ck.rule(k, v)
     check_a(ck, repo)
     check_b(ck, repo)
-    ck.require_count("C11.a", 9, "width, factor, operands, advance x2 functions + break guard")
-    ck.require_count("C11.b", 30, "recurrence summaries x2, dispatchers, widths, slow path")
+    ck.require_count("C11.a", 5, "width, factor, operands, advance x2 functions + break guard")
+    ck.require_count("C11.b", 18, "recurrence summaries x2, dispatchers, widths, slow path")
 
 
 _P = "mlinsights/mlmodel/_extended_features_polynomial.py"
